@@ -1718,6 +1718,16 @@ class sptensor:
         """
         dims, _ = tt_dimscheck(self.ndims, dims=dims)
 
+        if self.nnz == 0 and isinstance(factor, (ttb.tensor, ttb.sptensor, np.ndarray)):
+            # Nothing stored, nothing to scale
+            shapeArray = np.array(self.shape)
+            if isinstance(factor, np.ndarray):
+                if factor.shape[0] != shapeArray[dims]:
+                    assert False, "Size mismatch in scale"
+            elif not np.array_equal(factor.shape, shapeArray[dims]):
+                assert False, "Size mismatch in scale"
+            return self.copy()
+
         if isinstance(factor, ttb.tensor):
             shapeArray = np.array(self.shape)
             if not np.array_equal(factor.shape, shapeArray[dims]):
